@@ -28,6 +28,7 @@ func init() {
 			"J6 a call's qualified name used as a file-name prefix for removal ends with the separator. " +
 			"J8 makeUniquifier compares the previous uniquifier with the clock by order. " +
 			"J9 every strings.HasPrefix whose prefix derives from a node's qualified name has a prefix ending in '.' or tests the byte after it. " +
+			"J10 the journal-name replacer also replaces '%'. " +
 			"NOT decided: injectivity of nested mixed array/map fork numbering (arithmetic on run-time lengths), collisions between -u<uniq> directories.",
 		Assumptions: append([]string{"net/url.PathEscape escapes '%', '/', and every byte outside the RFC 3986 unreserved/sub-delims set (evaluated from the Go standard library the checker is built with)"}, commonAssumptions...),
 	}
@@ -149,6 +150,16 @@ func runC11(c *an.Ctx) {
 		_, has := from[need]
 		c.Check("J1", fmt.Sprintf("replacer-encodes(%q)", need), repl.Pos(), has,
 			"the journal-name encoder must replace "+need+" (the regexp's fork group is [^.]+ and journal files live in one flat directory)")
+	}
+	// J10: the ids handed to the replacer are already percent-encoded (a '/' INSIDE a map key is
+	// %2F in the id), and the replacer writes %2F for the '/' BETWEEN nested fork components: unless
+	// '%' itself is replaced, fork_x/fork_y%2Ffork_z and fork_x%2Ffork_y/fork_z get one journal name
+	// and one fqname; getFork returns the first, which receives both notifications, and the
+	// pipestance never completes (round 9, genuine).
+	{
+		v, has := from["%"]
+		c.Check("J10", "replacer-escapes-the-escape-character", repl.Pos(), has && v == "%25",
+			"the journal-name encoder introduces %XX escapes into text that may already contain %XX escapes (a '/' or '.' inside a map key) without escaping '%' itself: two different nested map fork ids get the same journal name and fqname, one fork receives both notifications and the other none")
 	}
 	for k, v := range from {
 		c.Check("J1", fmt.Sprintf("replacement-is-clean(%q->%q)", k, v), repl.Pos(), !strings.ContainsAny(v, "./"),
